@@ -23,7 +23,7 @@ import numpy as np
 from gridrv import instrument
 from gridrv.oracles import numdiff as nd
 
-REL_W = 1e-6
+REL_W = 1e-9
 EPS32 = float(np.finfo(np.float32).eps)
 SHRINK = (1.0, 0.3, 0.1, 0.03, 0.01)
 NS = (33, 29, 33, 29, 33)
@@ -68,6 +68,9 @@ def _chunk_for(tf):
     return None
 
 
+_last_aux = {}
+
+
 def jacobian(tf, x, domain=None):
     """|J| oracle: numerical first derivative of the implemented ``tf.transform`` at the nodes x (float64 array).
 
@@ -97,9 +100,14 @@ def jacobian(tf, x, domain=None):
     left = np.where(on_hi, other_l, left)
     bad = (left <= 0) & (right <= 0)
     left = np.where(bad, nd.LD(1e-3), left)  # placeholder, flagged below
-    est, err = nd.derivs_with_error(tf.transform, xl, left, right, orders=(1,), chunk=_chunk_for(tf), shrink=SHRINK, Ns=NS)
+    est, err = nd.derivs_with_error(tf.transform, xl, left, right, orders=(1, 2), chunk=_chunk_for(tf), shrink=SHRINK, Ns=NS)
     J = est[0].astype(float)
     e = err[0].copy()
+    # second derivative (only used for the conditioning allowance of the Jacobian with respect to the node)
+    J2 = np.abs(est[1].astype(float))
+    J2[~np.isfinite(J2) | ~(err[1] <= 0.5 * J2)] = np.inf
+    dist = np.minimum(np.where(np.isfinite(lo), np.abs(np.asarray(dl if np.isfinite(lo) else dr, dtype=float)), np.inf), np.where(np.isfinite(hi), np.abs(np.asarray(dr if np.isfinite(hi) else dl, dtype=float)), np.inf))
+    _last_aux["J2"], _last_aux["dist"] = J2, dist
     e[np.asarray(bad)] = np.inf
     e[~np.isfinite(J)] = np.inf
     return J, e, np.asarray(on_lo | on_hi)
@@ -176,7 +184,21 @@ def check_call(ctx, tf, old, new):
         out["J"], out["Jerr"] = J, err
         aJ = np.abs(J)
         noise64 = _f64_noise_of_deriv(tf, x)
-        tol = REL_W * aJ + 100 * err + noise64
+        # Conditioning allowance of a Jacobian evaluated at a float64 node: 100 eps (|J| + |x J'|), J' from the same
+        # numerical differentiation (fallback: power-law bound 10 |J| / distance to the nearest domain end).  This is the
+        # inherent part; it does NOT depend on how the library evaluates its own deriv, so an algebraically equivalent
+        # rewrite that cancels (subtracting rmin back out of transform(x)) is NOT absorbed.
+        with np.errstate(all="ignore"):
+            J2, dist = _last_aux["J2"], _last_aux["dist"]
+            slope = np.minimum(J2, 10 * aJ / dist)
+            slope = np.where(np.isfinite(slope), slope, 0.0)
+            cond = 100 * np.finfo(float).eps * (aJ + np.abs(x) * slope)
+        out["cond"] = cond
+        tol = REL_W * aJ + 100 * err + cond
+        if type(tf).__name__ == "InverseRTransform":
+            # the wrapper evaluates 1 / T'(T.inverse(r)): the float64 rounding of the intermediate x = T.inverse(r) is
+            # inherent to that architecture (x -> 1 loses digits of 1 - x); measured from the two precisions of the same code
+            tol = tol + noise64
         if lowprec:
             # float32 nodes / weights: the library's arithmetic is float32 (parameters and derived constants rounded as well)
             tol = tol + EPS32 * (1e5 * aJ + 30 * noise64 / np.finfo(float).eps)
@@ -210,6 +232,19 @@ def check_call(ctx, tf, old, new):
                 else:
                     ctx.check("weights-sign", subject, True)
                 ctx.hit("decided:weights-sign")
+
+        # ---- cheap global guard: a positive weight never vanishes (exactly 0 or subnormal) where the map's Jacobian,
+        # known to better than a factor 2, times the old weight is a comfortably representable number
+        with np.errstate(all="ignore"):
+            known = np.isfinite(J) & (err <= 0.5 * aJ) & (w > 0) & np.isfinite(w) & ~on_end  # interior nodes (at an end J may be 0)
+            vanished = known & (np.abs(new.weights) < np.finfo(float).tiny) & (aJ * w > 1e-280)
+        if type(tf).__name__ == "InverseRTransform":
+            # 1 / T'(T.inverse(r)): once T.inverse(r) rounds to the end point the weight is 1/inf = 0 although the true Jacobian is
+            # ~1e-17: inherent to the wrapper's architecture (absolute error ~1e-17), counted, not decided
+            ctx.count("wrapper-weights-vanished-after-inverse-rounded-to-end", int(vanished.sum()))
+        elif known.any():
+            j = int(np.argmax(vanished))
+            ctx.check("weights-not-vanishing", subject, not bool(vanished.any()), sig="weight-zero-or-subnormal-where-|J|w>1e-280", detail={"x": float(x[j]), "w_old": float(w[j]), "w_new": float(new.weights[j]), "J_oracle": float(J[j]), "n_vanished": int(vanished.sum())})
 
         # ---- domain
         od, nw = old.domain, new.domain
